@@ -24,6 +24,7 @@ from .model import FuncInfo, Repo, TypeEnv, attr_chain, walk_shallow
 from .report import RuleRun
 
 CLIPPED, DAMPED, UNIT, UNSAFE, SCALAR_NORM, DAMPED_NORM, UNKNOWN = "clipped", "damped", "unit", "unit.unit", "norm", "norm+eps", "?"
+MISPLACED = "clipped-then-scaled"
 ORDER = [CLIPPED, DAMPED, UNIT, UNSAFE]
 
 
@@ -137,6 +138,8 @@ class Bounds:
                 num, den = e.left, e.right
                 dk = self._den(den)
                 nk = self.kind(num)
+                if nk == CLIPPED and not self._is_const(den):
+                    return MISPLACED  # clipped first, scaled afterwards: the clip acted on the un-normalised value
                 if dk == "norm-of" and self._same_vector(num, den):
                     return UNIT
                 if dk == "damped-norm":
@@ -222,6 +225,14 @@ def inverse_trig_rule(repo: Repo, prop: str, rule_id: str, module_prefixes: Tupl
                 r.ok(fn, f"exempt: {EXEMPT[fn.qualname]}", key=key)
             elif k == CLIPPED:
                 r.ok(fn, f"{ast.unparse(c)[:70]}: argument clipped / strictly inside the domain", key=key)
+            elif k == MISPLACED:
+                r.bad(
+                    fn,
+                    f"{fn.qualname}: '{ast.unparse(c)[:100]}': the argument is clipped to [-1, 1] and DIVIDED by a length afterwards - the clip acts on the un-normalised product (as large as the length), "
+                    "so for lengths above 1 a perfectly aligned pair gives cos = 1/length instead of 1 (an angle that grows with the size of the cell), and for lengths below 1 the quotient can still leave the domain",
+                    c,
+                    key=key,
+                )
             elif k == UNSAFE:
                 r.bad(
                     fn,
